@@ -3,7 +3,7 @@ from vq.meta import _m
 _m(
     "C13",
     "exploration",
-    "Hypothesis draws (h, w) in [8,40]^2 (square or not, every parity) x estimator (numpy cross_correlation_shift | torch "
+    "Hypothesis draws (h, w): each side 8..40 with explicit parity in ~5/6 of the draws, 41..128 otherwise (square or not) x estimator (numpy cross_correlation_shift | torch "
     "cross_correlation_shift_torch | torch align_images_fourier_torch on FFTs; torch inputs float64 or float32) x "
     "upsample_factor in {1,2,3,4,8,16,32,64} x reference image (seeded: white noise [integer shifts only] | band-limited "
     "random field, cut-off 0.2-0.6 of Nyquist per axis | random-phase field with a mirror-symmetric Gaussian power spectrum, "
@@ -11,6 +11,12 @@ _m(
     "in [0,h)x[0,w) (identical images | integers | reals with fractional parts incl. 0.5, 0.49, 0.01, 0.99; one axis may stay "
     "integer) and, for numpy, fft_input x return_shifted_image x fft_output x max_shift (None | |s_centred| + {2.5,4,16,1000}; "
     "for integer shifts also + {0.25,0.5,1,1.5}).  "
+    "ROUTE dimension: every call reaches its estimator through one of the module paths the package itself uses (numpy: "
+    "core.utils.imaging_utils | imaging.drift | tomography.tomography_base | tomography.utils re-exports; torch: imaging_utils | "
+    "direct_ptycho_utils re-export | the wrappers direct_ptycho_utils._compute_reference_shifts / _compute_pairwise_shifts on the "
+    "(2,h,w) stack of the two images) and either passes every argument explicitly or leaves out those equal to the documented "
+    "default of the core function (upsample_factor, max_shift=None, fft_input/fft_output=False), as the package's own callers do "
+    "(class labels via:*, args:*, size:*, shift_radius>=32px*).  "
     "INPUT DTYPE dimension: in ~1/3 of the cases the two images are integer-valued counts stored as uint8 / uint16 / int16 / int32 / "
     "int64 (amplitude 100 on pedestal 128; 20000 on 30000; +-10000; +-1e6; +-1e6), handed to every estimator/input kind (numpy "
     "arrays, torch integer tensors viewing the same memory, FFTs of the integer arrays): exact clause = integer image and its "
@@ -19,7 +25,10 @@ _m(
     "their FFTs; float64 torch tensors are views of the same numpy memory) and 1-2 further registrations run on the SAME array "
     "objects with independently drawn settings (estimator numpy/torch as the input kind allows, upsample_factor, "
     "return_shifted_image/fft_output, max_shift, roles of the two images swapped); every call must satisfy the assertions of a "
-    "single call (class label reused_inputs); cases without a history hand freshly built arrays to every call.  "
+    "single call (class label reused_inputs); before a further call the SAME array objects (numpy stack, torch views / float32 "
+    "tensors, FFT arrays) are in half of the steps overwritten IN PLACE with a new image pair (new image, new shift), and the "
+    "following estimates must be those of the new content (class labels refreshed_in_place*); cases without a history hand "
+    "freshly built arrays to every call.  "
     "The moving image is T_s(ref) from the harness's own float64 Fourier translation (np.roll for integers).  A case is "
     "NON-TRIVIAL when the shift is non-integer with upsample_factor >= 2 and inside the sub-pixel domain guards, or some "
     "component of s exceeds half the image size, or the image is not square; distinct = SHA-1 of the canonical JSON of the case.",
@@ -43,7 +52,12 @@ _m(
         "with the reference up to the translated rounding noise, computed exactly.  The returned dtype is not asserted, the value is",
         "cross_correlation_shift_torch promotes integer tensors to float32: judged with the float32 tolerances; with unsigned "
         "(pedestal) data it is only run with up <= 8 (measured on the pinned tree for exact integer shifts: 1.2 upsampled px error at "
-        "up=64, 0.6 at 32, 0.07 at 16, 0.023 at 8 - float32 rounding of the correlation under a pedestal, as for float32 images)",
+        "up=64, 0.6 at 32, 0.07 at 16, 0.023 at 8 - float32 rounding of the correlation under a pedestal, as for float32 images) and, "
+        "for sides above 40 px, only with up <= 2 (0.03-0.04 upsampled px at up=3..8 on 128 px images)",
+        "re-exported names and the two direct-ptychography wrappers are judged as the core estimator (on the pinned tree the "
+        "re-exports are the same function objects; the wrappers loop over cross_correlation_shift_torch and return its result "
+        "per image / per pair); Tomography.cross_corr_alignment and DriftCorrection.align_* need dataset objects and resampling and "
+        "are not driven here (C15 covers the latter)",
         "float16 / bfloat16 are outside the domain: torch.fft rejects both on CPU (NotImplementedError) on the pinned tree; numpy "
         "float16 is accepted but computed in complex64 and is not examined",
         "float32 torch inputs carry no pedestal (a pedestal of 2 on unit contrast costs ~2 upsampled px at up=64 in float32: "
